@@ -15,6 +15,14 @@ Two ties between Pygom/Integrate.lean (theorems in Pygom/Props/C02.lean) and the
      independent reference: scipy.integrate.solve_ivp DOP853 rtol=atol=1e-12 (Radau cross-check on a subset)
      on the right-hand side built from the Lean driver's `assemble` ODE expressions evaluated in float.
      A failure there is a violation of the property itself.
+(i') exact, sessions ("fakesession" cases).  The Lean model of ONE call is a pure function of (cfg, x0, t0, grid, flow);
+     `Inst`/`SOp`/`runOps` (Integrate.lean) add the instance state the entry points carry between calls (`_x0`, `_t0`,
+     `_odeTime`, `_odeSolution`) and `session_is_pure` / `earlier_results_kept` / `solve_reads_current` (Props/C02.lean)
+     prove that it never matters.  A random list of assignments (initial_state / initial_time / initial_values) and solves
+     (integrate, solve_determ, integrate2; few grids, so the same grid comes back after a change) is applied to one fresh
+     real model against the fake integrator and to the driver's `runOps`; all returned arrays are read at the end.
+(iii) DIRECT ORACLE, sessions ("session" cases): histories on one instance, sibling instances, input forms - see the
+     comment above `ENTRY_CONFIGS`.
 """
 import json
 import math
@@ -29,9 +37,13 @@ from .. import gen, leanio
 PROP = "C02"
 LEAN = {"module": "Pygom.Props.C02", "extra_modules": ["Pygom.Lemmas.Integrate"],
         "required": ["Pygom.C02.rows_correct", "Pygom.C02.rows_aliased", "Pygom.C02.integrate_rows",
-                     "Pygom.C02.integrate2_rows", "Pygom.C02.solve_determ_rows", "Pygom.C02.method_dispatch"]}
-BUDGET = {"quick": {"fake": 240, "models": 40, "catalogue": 9, "radau_every": 2, "cython": 1},
-          "thorough": {"fake": 4000, "models": 1500, "catalogue": 36, "radau_every": 4, "cython": 8}}
+                     "Pygom.C02.integrate2_rows", "Pygom.C02.solve_determ_rows", "Pygom.C02.method_dispatch",
+                     "Pygom.C02.session_is_pure", "Pygom.C02.earlier_results_kept", "Pygom.C02.solve_reads_current",
+                     "Pygom.C02.solve2_reads_current", "Pygom.C02.stale_grid_counterexample"]}
+BUDGET = {"quick": {"fake": 240, "fake_sessions": 120, "models": 40, "catalogue": 9, "radau_every": 2, "cython": 1,
+                    "history": 48, "siblings": 30, "forms": 24, "entries_per_session": 5},
+          "thorough": {"fake": 4000, "fake_sessions": 2000, "models": 1500, "catalogue": 36, "radau_every": 4, "cython": 8,
+                       "history": 240, "siblings": 160, "forms": 100, "entries_per_session": 5}}
 RULE = ("fake-integrator cases: random entry point (integrateFuncJac, integrate2, _integrate2, integrate, solve_determ), "
         "1-4 states, dyadic x0/c/t0, grid kind (uniform, non-uniform incl. repeated/unsorted times, one point, scalar, empty, "
         "not-a-time, None), container (list/tuple/ndarray/int/float/np.float64), method in {None,lsoda,vode,ivode,dopri5,dop853, "
@@ -42,7 +54,31 @@ RULE = ("fake-integrator cases: random entry point (integrateFuncJac, integrate2
         "2-8 points, list or ndarray) and catalogue models of pygom.common_models (SIS, SIR, SEIR, Lotka_Volterra, SIR_norm, "
         "FitzHugh, vanDerPol, Lorenz and the stiff Robertson system (odeint / lsoda / bdf entry points only); equations re-written by hand from their docstrings) x 43 entry-point configurations "
         "(integrate x2, solve_determ x2, integrate2 x 6 methods x full_output, integrateFuncJac x 6 methods x full_output x "
-        "includeOrigin, scalar t x3); non-trivial when the reference solution moves by >1e-3 and every configuration was judged")
+        "includeOrigin, scalar t x3); non-trivial when the reference solution moves by >1e-3 and every configuration was judged. "
+        "Fake sessions: 4-14 operations on one fresh model (initial_state / initial_time / initial_values assignments, integrate, "
+        "solve_determ, integrate2 with random method and full_output; grids drawn from a pool of 1-3 lists and a scalar so that a "
+        "grid is asked again after the instance changed; empty / not-a-time / None arguments) against the driver's runOps; "
+        "non-trivial when at least two solves returned rows and everything agrees. "
+        "Sessions (direct oracle only; every solve judged against the reference for its own inputs, returned arrays kept and "
+        "compared after every later call with the copy taken on return, every list/array/dict handed in compared with the copy "
+        "taken before, repeated solves with equal values compared bit for bit): the 40 entry-point configurations (integrate x2, "
+        "solve_determ x2, integrate2 x12, integrateFuncJac x24) are dealt round-robin, 5 per session. HISTORY (one instance, random "
+        "model or pygom.common_models object): solve on (A, G0); then per dimension, in random order, change one of {t0, x0, "
+        "parameters (redrawn or the same values bound to other names), t0 and x0, grid: same length other values / same length and "
+        "end points other interior / superset / subset / last time as a scalar, t0 and grid together, container, method, "
+        "full_output, includeOrigin, entry point; parameters given scipy.stats distributions (half of the time used by a random "
+        "solve_determ) and then their plain numbers again}, solve, restore, solve; only what differs from what the instance was last given "
+        "is re-assigned (initial_time / initial_state or initial_values; parameters as dict / partial dict / (name, value) tuples / "
+        "list or ndarray in declaration order). SIBLINGS: live instances with the same names - parameter list (40%: and state list) "
+        "declared in another order with other values (half of the time the same values on other names), a re-defined derived "
+        "parameter or an extra term, a twin re-built and a deepcopy taken in mid-history - solved interleaved, the first one "
+        "moved to the second one's parameter values and back. FORMS (integer-valued x0, t0 and times, T = 1 or 1/2): grid as "
+        "list / tuple / ndarray / list of np.float64 / int list / int64 / int32 / mixed int-float / Python, numpy, integer scalar, "
+        "x0 as ndarray / list / tuple / int64 / int list / int tuple / mixed, t0 as float / np.float64 / int / np.int64, all-integer "
+        "combinations, integer x0 and t0 with a fractional grid, a grid whose first time is t0 (IntegrationError of the "
+        "scipy.integrate.ode based entry points on a zero-length step is tagged, not judged). A session is non-trivial when every "
+        "reference moved by >1e-3, at least one solve was judged and (history, siblings) at least one changed configuration has a "
+        "reference differing by >1e-3 from the first one's")
 ASSUMPTIONS = ["PARTIAL: scipy's integrators (odeint; ode: lsoda/vode/dopri5/dop853) approximate the flow within tolerance - a "
                "hypothesis of the Lean theorems (Laws S: identity + semigroup of an ideal flow), validated on every run: "
                "|row - ref| <= 1e-6 (1+|ref|) against solve_ivp DOP853 rtol=atol=1e-12 (Radau cross-check <= 1e-8 on a subset)",
@@ -54,7 +90,12 @@ ASSUMPTIONS = ["PARTIAL: scipy's integrators (odeint; ode: lsoda/vode/dopri5/dop
                "counted in the input distribution, never judged",
                "scipy's set_initial_value copies its argument and an aliased r.y is overwritten by the next integrate (measured "
                "on the real scipy before every run, recorded as aliased_measured_on_real_scipy)",
-               "np.array(solution) reads list cells only at the end of integrateFuncJac"]
+               "np.array(solution) reads list cells only at the end of integrateFuncJac",
+               "sessions: the same acceptance as the runtime cases, per (instance definition, configuration) on the union of the "
+               "times asked of it; fixed-horizon (integer-time) instances are attempted only when |J(x0)| x horizon <= 4; input "
+               "spellings the unchanged pygom rejects (range objects, 0-d arrays as t0, pickling a model) are not probed; "
+               "bit-for-bit reproducibility of repeated solves is demanded of one instance only (a re-built twin may order sums "
+               "differently) and its failure is a mismatch with the pure model, a violation only when off the reference"]
 TRUSTED = ["harness fake integrator (exact dyadic arithmetic in float64)", "harness float evaluator of the Lean ODE expressions",
            "scipy.integrate.solve_ivp DOP853/Radau as reference", "Lean driver JSON codec and `assemble` (tied to pygom by C01)",
            "hand-written catalogue equations (docstrings of pygom.common_models)"]
@@ -283,6 +324,8 @@ def make_cases(rng, tier, budget):
     cases = []
     for i in range(budget["fake"]):
         cases.append(gen_fake(random.Random(rng.getrandbits(64))))
+    for i in range(budget.get("fake_sessions", 0)):
+        cases.append(gen_fake_session(random.Random(rng.getrandbits(64))))
     ncat = len(catalogue())
     off = rng.randrange(ncat)
     for i in range(budget["catalogue"]):
@@ -291,7 +334,26 @@ def make_cases(rng, tier, budget):
         cases.append(gen_runtime_model(random.Random(rng.getrandbits(64)), i, i % budget["radau_every"] == 0))
         if i < budget.get("cython", 0):
             cases[-1]["backend"] = "cython"      # pygom's default compile back-end (seconds of gcc per evaluator)
+    cases += session_cases(rng, budget)
     return cases
+
+
+def session_cases(rng, budget, factor=1):
+    """every entry-point configuration gets its turn: the sessions walk round a shuffled list of the 40 configurations"""
+    order = list(ENTRY_CONFIGS)
+    rng.shuffle(order)
+    pos = [0]
+
+    def take(k):
+        out = [order[(pos[0] + j) % len(order)] for j in range(k)]
+        pos[0] += k
+        return out
+    out = []
+    k = budget.get("entries_per_session", 5)
+    for flavour, fn in (("history", gen_session_history), ("siblings", gen_session_siblings), ("forms", gen_session_forms)):
+        for i in range(budget.get(flavour, 0) * factor):
+            out.append(fn(random.Random(rng.getrandbits(64)), take(k), i % budget["radau_every"] == 0))
+    return out
 
 
 def search_cases(rng, tier, budget):
@@ -300,6 +362,7 @@ def search_cases(rng, tier, budget):
         out.append(gen_catalogue(random.Random(rng.getrandbits(64)), i, False))
     for i in range(budget["models"] * 3):
         out.append(gen_runtime_model(random.Random(rng.getrandbits(64)), i, False))
+    out += session_cases(rng, budget, factor=2)
     return out
 
 
@@ -504,6 +567,131 @@ def run_fake(case):
 
 
 # ------------------------------------------------------------------------------------------------
+# tie (i'): a SESSION on one instance against the fake integrator (exact)
+# The Lean `runOps` (Integrate.lean: `Inst`, `SOp`; theorems `session_is_pure`, `earlier_results_kept`,
+# `solve_reads_current`) threads `_x0`, `_t0`, `_odeTime`, `_odeSolution` through a list of assignments and solves.
+# The same list is applied to ONE fresh real model; every returned array is kept and read only at the end.
+# ------------------------------------------------------------------------------------------------
+def gen_fake_session(rng):
+    n = rng.randint(1, 3)
+    t0 = dyadic(rng, -2, 2, 4)
+    pool = []
+    for _ in range(rng.randint(1, 3)):
+        k = rng.randint(1, 5)
+        cur, ts = t0, []
+        for _ in range(k):
+            cur = cur + Fraction(rng.randint(0 if rng.random() < 0.1 else 1, 16), 8)
+            ts.append(cur)
+        pool.append({"list": [fr(v) for v in ts]})
+    pool.append({"scalar": fr(t0 + dyadic(rng, 0, 3))})
+
+    def targ():
+        r = rng.random()
+        if r < 0.04:
+            return {"t": {"list": []}, "container": rng.choice(["list", "tuple", "ndarray"])}
+        if r < 0.08:
+            return {"t": {"other": True}, "container": rng.choice(["str", "dict"])}
+        t = rng.choice(pool)        # few grids: the same one comes back after the instance was changed
+        return {"t": t, "container": rng.choice(["int_or_float", "np.float64"]) if "scalar" in t else rng.choice(["list", "tuple", "ndarray"])}
+    ops = []
+    for _ in range(rng.randint(4, 14)):
+        k = gen.wchoice(rng, [("setT0", 3), ("setX0", 3), ("setBoth", 2), ("integrate", 4), ("solve_determ", 2), ("integrate2", 4)])
+        if k == "setT0":
+            ops.append({"k": k, "t": fr(rng.choice([t0, dyadic(rng, -2, 2, 4)]))})
+        elif k == "setX0":
+            ops.append({"k": k, "x": [fr(dyadic(rng, -4, 4)) for _ in range(n)]})
+        elif k == "setBoth":
+            ops.append({"k": k, "x": [fr(dyadic(rng, -4, 4)) for _ in range(n)], "t": fr(rng.choice([t0, dyadic(rng, -2, 2, 4)]))})
+        elif k == "solve_determ" and rng.random() < 0.05:
+            ops.append({"k": k, "t": {"none": True}, "container": "None"})
+        else:
+            op = dict(targ(), k=k, full_output=rng.random() < 0.5)
+            if k == "integrate2":
+                op["method"] = rng.choice(METHODS)
+            ops.append(op)
+
+    def coef():
+        return [fr(dyadic(rng, -4, 2)), fr(dyadic(rng, -1, 1, 4)), fr(dyadic(rng, -1, 1, 4))]
+    return {"kind": "fakesession", "x0": [fr(dyadic(rng, -4, 4)) for _ in range(n)], "c": [fr(dyadic(rng, -3, 3)) for _ in range(n)],
+            "t0": fr(t0), "aliased": {k: rng.random() < 0.5 for k in INTEGRATORS}, "eigA": coef(), "eigB": coef(), "ops": ops}
+
+
+def run_fake_session(case):
+    import scipy.integrate
+    from pygom import SimulateOde, Transition
+    from .. import bootstrap
+    tags, mism = ["fakesession"], []
+    n = len(case["x0"])
+    c = [float(Fraction(v)) for v in case["c"]]
+    A = [float(Fraction(v)) for v in case["eigA"]]
+    B = [float(Fraction(v)) for v in case["eigB"]]
+    lr = leanio.driver().call({"op": "session", "aliased": case["aliased"], "copyOnRead": True, "c": case["c"], "eigA": case["eigA"],
+                               "eigB": case["eigB"], "x0": case["x0"], "t0": case["t0"],
+                               "ops": [{k: v for k, v in op.items() if k not in ("container", "full_output")} for op in case["ops"]]})
+    st = ["x%d" % i for i in range(n)]
+    pr = ["c%d" % i for i in range(n)]
+    model = bootstrap.fast_backend(SimulateOde(state=st, param=pr, ode=[Transition(origin=a, equation=b, transition_type="ODE")
+                                                                       for a, b in zip(st, pr)]))
+    model.parameters = dict(zip(pr, c))
+    model.initial_values = (np.array([float(Fraction(v)) for v in case["x0"]]), float(Fraction(case["t0"])))
+    model.jacobian_T = lambda t, x, *a: np.diag([A[0] + A[1] * t + A[2] * x[0], B[0] + B[1] * t + B[2] * x[0]])
+    log, outs = [], []
+    real_ode, real_odeint = scipy.integrate.ode, scipy.integrate.odeint
+    try:
+        scipy.integrate.ode = make_fake_ode(c, case["aliased"], log)
+        scipy.integrate.odeint = make_fake_odeint(c, log)
+        for op in case["ops"]:
+            k = op["k"]
+            try:
+                if k == "setT0":
+                    model.initial_time = float(Fraction(op["t"]))
+                elif k == "setX0":
+                    model.initial_state = np.array([float(Fraction(v)) for v in op["x"]])
+                elif k == "setBoth":
+                    model.initial_values = (np.array([float(Fraction(v)) for v in op["x"]]), float(Fraction(op["t"])))
+                else:
+                    targ = py_time_arg(op)
+                    if k == "integrate":
+                        r = model.integrate(targ, full_output=op["full_output"])
+                        outs.append(r[0] if op["full_output"] else r)
+                    elif k == "solve_determ":
+                        outs.append(model.solve_determ(targ))
+                    else:
+                        r = model.integrate2(targ, full_output=op["full_output"], method=op["method"])
+                        outs.append(r[0] if op["full_output"] else r)
+                    tags.append("fakesession:op=%s" % k)
+            except Exception as exc:
+                if k in ("setT0", "setX0", "setBoth"):
+                    raise
+                outs.append(type(exc).__name__)
+                tags.append("fakesession:error=%s" % type(exc).__name__)
+    finally:
+        scipy.integrate.ode = real_ode
+        scipy.integrate.odeint = real_odeint
+    if lr.get("err") is not None or "outputs" not in lr:
+        mism.append({"what": "fakesession:driver", "detail": str(lr)[:500]})
+        return {"nontrivial": False, "mismatches": mism, "violations": [], "tags": tags}
+    # everything returned is read only now, after all later operations
+    py = [o if isinstance(o, str) else rows_to_fr(o) for o in outs]
+    le = [o["err"] if "err" in o else o["rows"] for o in lr["outputs"]]
+    if py != le:
+        j = next((i for i, (a, b) in enumerate(zip(py, le)) if a != b), min(len(py), len(le)))
+        mism.append({"what": "fakesession:outputs", "detail": "solve #%d: python %s ; lean model %s" % (
+            j, py[j] if j < len(py) else None, le[j] if j < len(le) else None)})
+    final = (rows_to_fr(model.initial_state)[0], fr(Fraction(float(model.initial_time))))
+    if final != (lr["x0"], lr["t0"]):
+        mism.append({"what": "fakesession:final-values", "detail": "python %s ; lean model %s" % (final, (lr["x0"], lr["t0"]))})
+    ot = getattr(model, "_odeTime", "absent")
+    if not isinstance(ot, str):
+        pt = None if ot is None else [fr(Fraction(float(v))) for v in np.asarray(ot, dtype=float)]
+        if pt != lr["odeTime"]:
+            mism.append({"what": "fakesession:odeTime", "detail": "python _odeTime %s ; lean model %s" % (pt, lr["odeTime"])})
+    nsolve = sum(1 for o in py if not isinstance(o, str))
+    return {"nontrivial": nsolve >= 2 and not mism, "mismatches": mism, "violations": [], "tags": tags,
+            "sample": {"ops": case["ops"][:6], "outputs": le[:3]}}
+
+
+# ------------------------------------------------------------------------------------------------
 # tie (ii): real integrators against an independent reference
 # ------------------------------------------------------------------------------------------------
 def to_py(e, names):
@@ -664,7 +852,7 @@ def judge(sig, sol, ref, x0, grid, origin, viol, margins, key, acc=TOL):
         return
     if origin:
         if not np.array_equal(a[0], x0):
-            viol.append({"what": "%s: first row %s is not the initial state %s" % (sig, list(a[0]), list(x0)),
+            viol.append({"what": "%s: first row %s is not the initial state %s" % (sig, [float(v) for v in a[0]], [float(v) for v in x0]),
                          "signature": sig + ":origin-row", "detail": ""})
             return
         a = a[1:]
@@ -678,7 +866,7 @@ def judge(sig, sol, ref, x0, grid, origin, viol, margins, key, acc=TOL):
             what = "rows-equal-final-state"
         elif len(grid) >= 2 and any(np.all(np.abs(a[i] - ref[j]) <= acc * (1.0 + np.abs(ref[j]))) for j in range(len(grid)) if j != i):
             what = "row-order"
-        viol.append({"what": "%s: row for t=%r is %s, the ODE solution there is %s (%s)" % (sig, grid[i], list(a[i]), list(ref[i]), what),
+        viol.append({"what": "%s: row for t=%r is %s, the ODE solution there is %s (%s)" % (sig, grid[i], [float(v) for v in a[i]], [float(v) for v in ref[i]], what),
                      "signature": sig + ":" + what,
                      "detail": "returned=%s reference=%s grid=%s" % (a.tolist(), ref.tolist(), list(grid))})
 
@@ -802,7 +990,682 @@ def run_runtime(case):
                        "amp": info["amp"], "direct": info["direct"], "margins": margins, "worst_error_over_tol": max(margins.values()) if margins else None}}
 
 
+# ------------------------------------------------------------------------------------------------
+# tie (iii): SESSIONS - several solves on live instances, DIRECT ORACLE only
+#
+# The Lean model (Pygom/Integrate.lean, Props/C02.lean) describes ONE call as a pure function of
+# (cfg, x0, t0, grid, flow): `rows_correct` & co. say the rows depend on nothing else - in particular not on
+# what was solved before, on another model instance, or on the Python type of the arguments.  The instance
+# state the real entry points read and write (`_x0`, `_t0`, `_odeTime`, `_odeSolution`) is modelled by
+# `Inst`/`runOps` with `solve_reads_current` (every solve in every history is the pure function of the
+# values set last) and `earlier_results_kept` (outputs already produced are a prefix of the outputs of any
+# longer history); `stale_grid_counterexample` shows that a `_setIntegrateTime` that keeps the old time
+# vector when the grid repeats does NOT have that property.  The probes below look for real code that is not
+# such a function.  Each solve is judged against the independent reference for ITS OWN inputs:
+#   history    one instance: solve; change one of {t0, x0, parameters, grid (same length other values / same
+#              end points other interior / superset / subset / scalar), container, method, full_output,
+#              includeOrigin, entry point}; solve; restore; solve again.  Only what differs is re-assigned.
+#   siblings   live instances with the same names: parameters and/or states declared in another order, other
+#              values, a re-defined derived parameter / an extra term, a fresh twin built in mid-history, a
+#              deepcopy; solved interleaved.
+#              Left-over configuration: distributions assigned to the parameters (scipy.stats frozen gamma, optionally used
+#              by a random solve_determ), then every parameter given its plain number again: the solve must be the one for
+#              those numbers (random parameters themselves are outside the model and are not judged).
+#   forms      integer-valued inputs in every accepted spelling (grid list/tuple/ndarray/int list/int64/int32/
+#              numpy scalars/mixed/scalar, x0 list/tuple/float or int ndarray/int list, t0 float/int/np.float64/
+#              np.int64, parameters dict/partial dict/tuples/ordered list/ordered ndarray), a grid starting at t0.
+# Returned arrays are KEPT and compared, after all later solves, with a copy taken when they were returned;
+# every object handed to pygom is compared with a copy taken before.  Repeated solves with equal values must
+# agree bit for bit (a disagreement is a mismatch with the pure model; off the reference it is a violation).
+# ------------------------------------------------------------------------------------------------
+ENTRY_CONFIGS = ([("integrate", None, fo, True) for fo in (False, True)] +
+                 [("solve_determ", None, fo, True) for fo in (False, True)] +
+                 [("integrate2", m, fo, True) for m in METHODS for fo in (False, True)] +
+                 [("integrateFuncJac", m, fo, io) for m in METHODS for fo in (False, True) for io in (False, True)])
+GFORMS_FLOAT = ["list", "tuple", "ndarray", "npscalars"]
+GFORMS_INT = ["intlist", "int64", "int32", "mixed"]
+XFORMS_FLOAT = ["ndarray", "list", "tuple"]
+XFORMS_INT = ["int64", "intlist", "inttuple", "mixedlist"]
+TFORMS_FLOAT = ["float", "np.float64"]
+TFORMS_INT = ["int", "np.int64"]
+PFORMS = ["dict", "partial", "tuples", "ordered-list", "ordered-ndarray"]
+# unchanged pygom/scipy: an `ode` integrator asked to advance by zero (first requested time == t0) reports
+# failure for lsoda (single-integrator path) / dopri5 / dop853 and pygom raises IntegrationError: tagged, not judged
+ZERO_STEP_ERRORS = ("IntegrationError",)
+
+
+def entry_sig(e):
+    if e[0] in ("integrate", "solve_determ"):
+        return "%s:method=odeint:full_output=%s" % (e[0], e[2])
+    return "%s:method=%s:full_output=%s" % (e[0], e[1], e[2])
+
+
+def _solve_op(inst_, cfg_, grid_, e, forms, **over):
+    d = {"op": "solve", "inst": inst_, "cfg": cfg_, "grid": grid_, "entry": e[0], "method": e[1], "fo": bool(e[2]), "io": bool(e[3])}
+    d.update(forms)
+    d.update(over)
+    return d
+
+
+def _gen_values(rng, names, lo, hi, den):
+    return {n: fr(Fraction(rng.randint(lo, hi), den)) for n in names}
+
+
+def _differ(rng, base, lo, hi, den):
+    """another value table with the same keys: redrawn, or (half of the time, >= 2 distinct values) the same
+    values bound to other names - the table an argument-order slip would produce"""
+    keys = list(base)
+    if len(set(base.values())) >= 2 and rng.random() < 0.5:
+        while True:
+            vals = [base[k] for k in keys]
+            rng.shuffle(vals)
+            out = dict(zip(keys, vals))
+            if out != base:
+                return out
+    while True:
+        out = _gen_values(rng, keys, lo, hi, den)
+        if out != base or not keys:
+            return out
+
+
+def _scaled(rng, base, keep=()):
+    out = {}
+    for k, v in base.items():
+        out[k] = v if k in keep else fr(Fraction(v) * rng.choice([Fraction(1, 2), Fraction(3, 4), Fraction(5, 4), Fraction(3, 2)]))
+    return out
+
+
+def _session_model(rng, cat_prob, min_params=1, int_values=False, names_only=None):
+    """one instance description: (instance dict with config A, kind tags)"""
+    cats = [c for c in catalogue() if not c.get("stiff") and (names_only is None or c["name"] in names_only)]
+    if rng.random() < cat_prob:
+        ent = rng.choice([c for c in cats if len(c["params"]) >= min_params])
+        states = ent["spec"]["state"]["list"]
+        inst = {"source": "common_models:" + ent["name"], "spec": ent["spec"], "decl_states": list(states),
+                "decl_params": list(ent["spec"]["param"]["list"]), "T": ent["T"], "amp_check": False,
+                "configs": {"A": {"params": dict(ent["params"]), "x0": dict(zip(states, ent["x0"])), "t0": "0"}}}
+        return inst
+    while True:
+        spec, meta = gen.gen_model(rng, max_states=4, max_params=4, min_events=1, max_events=4, allow_time=False,
+                                   allow_range=rng.random() < 0.3, limits=False)
+        if len(meta["params"]) >= min_params:
+            break
+    if int_values:
+        params = _gen_values(rng, meta["params"], 1, 4, 16)
+        x0 = {s: str(rng.randint(1, 2)) for s in meta["states"]}
+    else:
+        params = _gen_values(rng, meta["params"], 2, 16, 16)
+        x0 = _gen_values(rng, meta["states"], 2, 16, 8)
+    return {"source": "spec", "spec": spec, "decl_states": list(meta["abstract"]["decl_states"]), "decl_params": list(meta["params"]),
+            "kinds": sorted(set(meta["kinds"])), "amp_check": True, "configs": {"A": {"params": params, "x0": x0, "t0": "0"}}}
+
+
+def _base_grid(rng):
+    k = rng.randint(2, 8)
+    if rng.random() < 0.5:
+        return [Fraction(i + 1, k) for i in range(k)]
+    return [Fraction(v, 64) for v in sorted(set(rng.randint(8, 64) for _ in range(k)))] + ([] if rng.random() < 0.5 else [Fraction(1)])
+
+
+def _float_forms(rng):
+    return {"gform": rng.choice(GFORMS_FLOAT), "xform": rng.choice(XFORMS_FLOAT), "tform": rng.choice(TFORMS_FLOAT),
+            "pform": rng.choice(PFORMS), "via": rng.choice(["attr", "values"])}
+
+
+def _other(rng, pool, cur):
+    return rng.choice([v for v in pool if v != cur])
+
+
+def gen_session_history(rng, entries, radau):
+    inst = _session_model(rng, 0.3)
+    A = inst["configs"]["A"]
+    cat = inst["source"] != "spec"
+    g0 = sorted(set(_base_grid(rng)))
+    grids = {"G0": g0}
+    c = rng.choice([Fraction(3, 4), Fraction(7, 8), Fraction(17, 16)])
+    grids["G1"] = [f * c for f in g0]                                            # same length, other values
+    if len(g0) >= 3:                                                             # same length and end points, other interior
+        while True:
+            mid = sorted(set(g0[0] + (g0[-1] - g0[0]) * Fraction(rng.randint(1, 63), 64) for _ in range(len(g0) - 2)))
+            if len(mid) == len(g0) - 2 and mid != g0[1:-1]:
+                break
+        grids["G4"] = [g0[0]] + mid + [g0[-1]]
+    sup = set(g0)
+    for a, b in zip([Fraction(1, 8)] + g0[:-1], g0):
+        if rng.random() < 0.5:
+            sup.add((a + b) / 2)
+    if rng.random() < 0.5 or len(sup) == len(g0):
+        sup.add(g0[-1] + Fraction(1, 8))
+    grids["G2"] = sorted(sup)                                                    # superset
+    keep = [f for f in g0 if rng.random() < 0.5] or [rng.choice(g0)]
+    if len(keep) == len(g0):
+        keep = keep[1:] if len(keep) > 1 and rng.random() < 0.5 else keep[:-1] or keep
+    grids["G3"] = keep                                                           # subset
+    grids["Gs"] = [g0[-1]]                                                       # the last time, passed as a scalar
+    minfrac = min(min(v) for v in grids.values())
+    tB = rng.choice([Fraction(-1, 3), Fraction(-1, 4), Fraction(-1, 8), minfrac / 2])
+    if cat:
+        pB = _scaled(rng, A["params"], keep=("N",))
+        xB = _scaled(rng, A["x0"])
+        if xB == A["x0"]:       # all-zero initial states cannot be scaled
+            xB = dict(A["x0"], **{list(A["x0"])[0]: fr(Fraction(A["x0"][list(A["x0"])[0]]) + 1)})
+    else:
+        pB = _differ(rng, A["params"], 2, 16, 16)
+        xB = _differ(rng, A["x0"], 2, 16, 8)
+    inst["configs"].update({"Bt0": dict(A, t0=fr(tB)), "Bx0": dict(A, x0=xB), "Bpar": dict(A, params=pB),
+                            "Btx": dict(A, x0=xB, t0=fr(tB))})
+    base = _float_forms(rng)
+    ops = []
+    for e in entries:
+        b = lambda **kw: _solve_op(0, "A", "G0", e, base, **kw)
+        dims = [dict(cfg="Bt0"), dict(cfg="Bx0"), dict(cfg="Bpar"), dict(cfg="Btx"), dict(grid="G1"), dict(grid="G2"),
+                dict(grid="G3"), dict(grid="Gs", gform=rng.choice(["scalar", "np.float64"])), dict(cfg="Bt0", grid="G1"),
+                dict(gform=_other(rng, GFORMS_FLOAT, base["gform"])), dict(fo=not e[2])]
+        if "G4" in grids:
+            dims.append(dict(grid="G4"))
+        if e[0] in ("integrate2", "integrateFuncJac"):
+            dims.append(dict(method=_other(rng, METHODS, e[1])))
+        if e[0] == "integrateFuncJac":
+            dims.append(dict(io=not e[3]))
+        o = rng.choice([x for x in ENTRY_CONFIGS if x[0] != e[0]])
+        dims.append(dict(entry=o[0], method=o[1], fo=bool(o[2]), io=bool(o[3])))
+        rng.shuffle(dims)
+        ops.append(b())
+        for d in dims:
+            if "cfg" in d:      # how the change reaches the instance
+                d["via"] = rng.choice(["attr", "values"])
+                d["pform"] = rng.choice(PFORMS)
+            ops.append(b(**d))
+            if rng.random() < 0.85:
+                ops.append(b())         # restored
+        ops.append(b())
+    # left-over configuration, at the end of the session (everything after it carries `after-random-parameters` in its
+    # history class): distributions are assigned to the parameters and, half of the time, used by a random solve_determ;
+    # then every parameter is given its plain number again and each entry point solves once more
+    for e in entries:
+        ops.append({"op": "randomise", "inst": 0, "grid": "G0", "solve": rng.random() < 0.5})
+        ops.append(_solve_op(0, "A", "G0", e, base, pform=rng.choice([f for f in PFORMS if f != "partial"])))
+    return {"kind": "session", "flavour": "history", "instances": [inst], "tbase": fr(rng.choice([0, 0, Fraction(1, 2), -1, 3])),
+            "Tmax": rng.choice([1, 2, 3]), "grids": {k: [fr(f) for f in v] for k, v in grids.items()}, "ops": ops, "radau": bool(radau)}
+
+
+def permuted_instance(rng, inst, perm_states):
+    """the same definition with the parameter list (and optionally the state list) declared in another order,
+    other parameter values (half of the time the SAME values bound to other names), other initial state"""
+    import copy
+    out = copy.deepcopy(inst)
+    out["source"] = "spec"
+    dp = list(inst["decl_params"])
+    if len(dp) >= 2:
+        while dp == inst["decl_params"]:
+            rng.shuffle(dp)
+    ds = list(inst["decl_states"])
+    if perm_states and len(ds) >= 2:
+        while ds == inst["decl_states"]:
+            rng.shuffle(ds)
+    out["decl_params"], out["decl_states"] = dp, ds
+    out["spec"]["param"] = {"list": dp}
+    out["spec"]["state"] = {"list": ds}
+    return out
+
+
+def redefined_instance(rng, inst):
+    """same names, another definition: the first derived parameter gets + 1, or the first state an extra decay term"""
+    import copy
+    out = copy.deepcopy(inst)
+    out["source"] = "spec"
+    spec = out["spec"]
+    if spec.get("derived"):
+        spec["derived"][0][1] = E.add(spec["derived"][0][1], E.num(1))
+    else:
+        s = gen.expand_decl(inst["decl_states"])[0]
+        p = inst["decl_params"][0]
+        spec["ctor"]["ode"] = list(spec["ctor"]["ode"]) + [{"type": "ODE", "origin": s, "dest": None, "mag": N_(1),
+                                                             "eq": E.neg(_m(V(p), V(s)))}]
+    return out
+
+
+def gen_session_siblings(rng, entries, radau):
+    first = _session_model(rng, 0.35, min_params=2, names_only=("SIS", "SIR", "SEIR", "Lotka_Volterra", "SIR_norm", "FitzHugh"))
+    cat = first["source"] != "spec"
+    if cat:
+        first["source"] = "spec"            # the hand-written equations through the ODE route: textually identical siblings
+    A = first["configs"]["A"]
+    insts = [first]
+    second = permuted_instance(rng, first, perm_states=rng.random() < 0.4)
+    if cat:
+        second["configs"] = {"A": {"params": _scaled(rng, A["params"], keep=("N",)), "x0": _scaled(rng, A["x0"]), "t0": "0"}}
+    else:
+        second["configs"] = {"A": {"params": _differ(rng, A["params"], 2, 16, 16), "x0": _differ(rng, A["x0"], 2, 16, 8),
+                                   "t0": fr(rng.choice([0, Fraction(-1, 4)]))}}
+    insts.append(second)
+    if rng.random() < 0.6:
+        third = redefined_instance(rng, first)
+        third["configs"] = {"A": dict(A)}
+        insts.append(third)
+    twin = len(insts)
+    insts.append({"copy_of": 0, "how": "rebuild"})          # fresh twin of the first, built in mid-history
+    clone = len(insts)
+    insts.append({"copy_of": 0, "how": "deepcopy"})
+    first["configs"]["B"] = {"params": second["configs"]["A"]["params"], "x0": A["x0"], "t0": A["t0"]}
+    g0 = sorted(set(_base_grid(rng)))
+    forms = [_float_forms(rng) for _ in insts]
+    for f in forms:
+        f["via"] = "values"
+    ops = []
+    live = list(range(len(insts) - 2))
+    late = rng.random() < 0.3          # the second model is built only after the first has solved
+    for i in live:
+        if not (late and i == 1):
+            ops.append({"op": "build", "inst": i})
+    for n, e in enumerate(entries):
+        order = live + [rng.choice(live) for _ in range(2)]
+        if n == 0:
+            order = [0] + [i for i in live if i != 0] + [0, 1]
+        else:
+            rng.shuffle(order)
+        for i in order:
+            ops.append(_solve_op(i, "A", "G0", e, forms[i]))
+        if n == 0:
+            # the first instance moves to the second one's parameter values; a fresh twin and a deepcopy taken before
+            # the move solve with the OLD values in between
+            ops.append({"op": "deepcopy", "inst": 0, "as": clone})
+            ops.append(_solve_op(0, "B", "G0", e, forms[0], pform=rng.choice(PFORMS)))
+            ops.append({"op": "build", "inst": twin})
+            ops.append(_solve_op(twin, "A", "G0", e, forms[twin]))
+            ops.append(_solve_op(clone, "A", "G0", e, forms[clone]))
+            ops.append(_solve_op(0, "B", "G0", e, forms[0]))
+            ops.append(_solve_op(0, "A", "G0", e, forms[0], pform=rng.choice(PFORMS)))
+            ops.append(_solve_op(clone, "A", "G0", e, forms[clone]))
+    return {"kind": "session", "flavour": "siblings", "instances": insts, "tbase": fr(rng.choice([0, 0, Fraction(1, 2), -1, 3])),
+            "Tmax": rng.choice([1, 2, 3]), "grids": {"G0": [fr(f) for f in g0]}, "ops": ops, "radau": bool(radau)}
+
+
+def gen_session_forms(rng, entries, radau):
+    inst = _session_model(rng, 0.0, int_values=True)
+    k = rng.randint(2, 3)
+    g0 = list(range(1, k + 1)) if rng.random() < 0.6 else sorted(rng.sample([1, 2, 3], 2))
+    grids = {"G0": [str(v) for v in g0], "Gs": [str(g0[-1])], "Gz": ["0"] + [str(v) for v in g0]}
+    # 2 in 5: half-integer times (T = 1/2) - integer spellings of x0 and t0 together with a grid that is NOT integer valued
+    half = rng.random() < 0.4
+    gint = [] if half else GFORMS_INT
+    base = {"gform": "list", "xform": "ndarray", "tform": "float", "pform": "dict", "via": "values"}
+    ops = []
+    for e in entries:
+        b = lambda **kw: _solve_op(0, "A", "G0", e, base, **kw)
+        var = [dict(gform=g) for g in GFORMS_FLOAT[1:] + gint] + [dict(xform=x) for x in XFORMS_FLOAT[1:] + XFORMS_INT] + \
+              [dict(tform=t) for t in TFORMS_FLOAT[1:] + TFORMS_INT] + [dict(pform=p) for p in PFORMS[1:]] + \
+              [dict(grid="Gs", gform="scalar"), dict(grid="Gs", gform="np.float64"), dict(grid="Gz")]
+        if half:
+            var += [dict(gform="ndarray", xform="int64", tform="int"), dict(gform="tuple", xform="intlist", tform="np.int64"),
+                    dict(grid="Gs", gform="scalar", tform="int"), dict(grid="Gz", gform="ndarray", tform="int")]
+        else:
+            var += [dict(gform="int64", xform="int64", tform="int"), dict(gform="intlist", xform="intlist", tform="np.int64"),
+                    dict(grid="Gs", gform="intscalar"), dict(grid="Gs", gform="np.int64"), dict(grid="Gz", gform="int64", tform="int")]
+        rng.shuffle(var)
+        ops.append(b())
+        for d in var:
+            d["via"] = rng.choice(["attr", "values"])
+            ops.append(b(**d))
+        ops.append(b())
+    return {"kind": "session", "flavour": "forms", "instances": [inst], "tbase": str(rng.choice([0, 0, 1, -1, 3])), "Tfixed": "1/2" if half else "1",
+            "grids": grids, "ops": ops, "radau": bool(radau)}
+
+
+def _container(vals, form):
+    """the object handed to pygom for a list of float values"""
+    if form == "list":
+        return list(vals)
+    if form == "tuple":
+        return tuple(vals)
+    if form == "ndarray":
+        return np.array(vals, dtype=float)
+    if form == "npscalars":
+        return [np.float64(v) for v in vals]
+    ints = [int(v) for v in vals]
+    assert [float(i) for i in ints] == list(vals), "integer form asked for non-integer values"
+    if form == "intlist":
+        return ints
+    if form == "inttuple":
+        return tuple(ints)
+    if form == "int64":
+        return np.array(ints, dtype=np.int64)
+    if form == "int32":
+        return np.array(ints, dtype=np.int32)
+    if form in ("mixed", "mixedlist"):
+        return [i if j % 2 == 0 else float(i) for j, i in enumerate(ints)]
+    raise ValueError(form)
+
+
+def _scalar(v, form):
+    if form in ("float", "scalar"):
+        return float(v)
+    if form == "np.float64":
+        return np.float64(v)
+    assert float(int(v)) == v, "integer form asked for a non-integer value"
+    return int(v) if form in ("int", "intscalar") else np.int64(int(v))
+
+
+def _snapshot(obj):
+    if isinstance(obj, np.ndarray):
+        return ("nd", obj.dtype.str, obj.copy())
+    if isinstance(obj, (list, tuple)):
+        return ("seq", type(obj).__name__, [(type(v).__name__, float(v)) if not isinstance(v, tuple) else (str(v[0]), float(v[1])) for v in obj])
+    if isinstance(obj, dict):
+        return ("dict", None, sorted((str(k), float(v)) for k, v in obj.items()))
+    return ("scalar", type(obj).__name__, float(obj))
+
+
+def _same_as_snapshot(obj, snap):
+    now = _snapshot(obj)
+    if now[0] == "nd":
+        return snap[0] == "nd" and now[1] == snap[1] and now[2].shape == snap[2].shape and np.array_equal(now[2], snap[2])
+    return now == snap
+
+
+def run_session(case):
+    import copy as _copy
+    from .. import pymodel, bootstrap
+    from pygom.model import ode_utils
+    tags, mism, viol = ["session:%s" % case["flavour"]], [], []
+    done = lambda nt=False, extra=(), sample=None: {"nontrivial": nt, "mismatches": mism, "violations": viol,
+                                                    "tags": tags + list(extra), "sample": sample}
+    descr = case["instances"]
+    root = lambda i: descr[i].get("copy_of", i)
+    # --- specification side: right-hand sides from the Lean driver's assembled equations ---------------------------
+    spec_info = {}
+    for i, d in enumerate(descr):
+        if "copy_of" in d:
+            continue
+        lr = leanio.driver().call({"op": "assemble", "derivs": False, "model": d["spec"]})
+        if lr.get("err") is not None:
+            mism.append({"what": "session:assemble", "detail": "lean rejects the model of instance %d: %s" % (i, lr.get("err"))})
+            return done()
+        spec_info[i] = lr
+        tags.append("session:model=%s" % d["source"].split(":")[0])
+    ref_cache, f_cache = {}, {}
+
+    def cfg_of(i, name):
+        return descr[root(i)]["configs"][name]
+
+    def rhs(i, name):
+        key = (root(i), name)
+        if key not in f_cache:
+            f_cache[key] = rhs_from_lean(spec_info[root(i)], cfg_of(i, name)["params"])[0]
+        return f_cache[key]
+
+    def x0_of(i, name):
+        c = cfg_of(i, name)
+        return [float(Fraction(c["x0"][s])) for s in spec_info[root(i)]["states"]]
+
+    used = {}       # (root inst, cfg) -> grid names
+    for op in case["ops"]:
+        if op["op"] == "solve":
+            used.setdefault((root(op["inst"]), op["cfg"]), set()).add(op["grid"])
+    tbase = Fraction(case["tbase"])
+    if "Tfixed" in case:
+        # integer-valued times: the horizon cannot follow the model, so instances whose Lipschitz bound at x0 times the
+        # horizon exceeds 4 are not attempted (the reference would crawl towards a finite-time blow-up)
+        T = Fraction(case["Tfixed"])
+        span = float(T) * max(float(Fraction(f)) for g in case["grids"].values() for f in g)
+        for (i, name) in used:
+            try:
+                L = float(np.linalg.norm(fd_jac(rhs(i, name), 0.0, np.array(x0_of(i, name))), 2))
+            except (ZeroDivisionError, OverflowError, ValueError):
+                return done(extra=["rejected:rhs-undefined-at-x0"])
+            if not np.isfinite(L) or L * span > 4.0:
+                return done(extra=["rejected:fixed-horizon-too-long"])
+    else:
+        Ts = []
+        for (i, name) in used:
+            d = descr[i]
+            if "T" in d:
+                Ts.append(Fraction(d["T"]) * Fraction(2, 3))
+                continue
+            try:
+                L = float(np.linalg.norm(fd_jac(rhs(i, name), 0.0, np.array(x0_of(i, name))), 2))
+            except (ZeroDivisionError, OverflowError, ValueError):
+                return done(extra=["rejected:rhs-undefined-at-x0"])
+            if not np.isfinite(L):
+                return done(extra=["rejected:rhs-undefined-at-x0"])
+            Ts.append(Fraction(min(float(case["Tmax"]), 2.0 / L) if L > 0 else float(case["Tmax"])) * Fraction(2, 3))
+        T = Fraction(min(Ts)).limit_denominator(1024) or Fraction(1, 1024)
+    tval = lambda f: float(tbase + T * Fraction(f))
+    # --- independent reference per (instance definition, configuration) on the union of the times asked of it ----------
+    refs = {}
+    for (i, name), gnames in sorted(used.items()):
+        c = cfg_of(i, name)
+        t0 = tval(c["t0"])
+        times = sorted(set(tval(f) for g in gnames for f in case["grids"][g]))
+        if times[0] < t0:
+            raise ValueError("generator: a requested time precedes the initial time")
+        x0 = np.array(x0_of(i, name))
+        ref, info = reference(rhs(i, name), x0, t0, times, case.get("radau") and name == "A")
+        if ref is None:
+            return done(extra=["rejected:%s" % info])
+        if descr[i].get("amp_check", True) and info["amp"] > AMP_MAX:
+            return done(extra=["rejected:ill-conditioned"])
+        if info["direct"]["1e-10"] > TOL / 100:
+            return done(extra=["rejected:solver-inaccurate-at-1e-10"])
+        refs[(i, name)] = {"rows": dict(zip(times, ref)), "x0": x0, "t0": t0, "acc_odeint": max(TOL, 20.0 * info["direct"]["default"]),
+                           "moved": float(np.max(np.abs(ref - x0) / (1.0 + np.abs(x0)))), "amp": info["amp"]}
+    # --- the live objects ---------------------------------------------------------------------------------------------------
+    live = {}
+
+    def build(i):
+        d = descr[root(i)]
+        if d["source"].startswith("common_models:"):
+            from pygom import common_models
+            m = bootstrap.fast_backend(getattr(common_models, d["source"].split(":")[1])())
+        else:
+            m = pymodel.build(d["spec"], backend="lambda")
+        lr = spec_info[root(i)]
+        if [str(s) for s in m.state_list] != lr["states"] or sorted(str(p) for p in m.param_list) != sorted(lr["params"]):
+            mism.append({"what": "session:names", "detail": "python %s %s lean %s %s" % (m.state_list, m.param_list, lr["states"], lr["params"])})
+            return False
+        live[i] = {"model": m, "cur": {"params": None, "x0": None, "t0": None}, "last": None}
+        return True
+
+    kept, handed, margins, first_result = [], [], {}, {}
+    prev_inst = [None]
+    counts = {"solves": 0, "visible": 0, "tagged": 0}
+
+    def hand(obj, what):
+        if isinstance(obj, (np.ndarray, list, dict)):        # tuples and scalars cannot be written to
+            handed.append((obj, _snapshot(obj), what))
+        return obj
+
+    def params_arg(i, pdict, form, changed):
+        # positional forms bind by declaration order: only where the harness itself declared the parameters
+        order = gen.expand_decl(descr[root(i)]["decl_params"]) if descr[root(i)]["source"] == "spec" else []
+        if form == "partial" and changed is not None and changed:
+            return {k: pdict[k] for k in changed}
+        if form == "tuples":
+            return [(k, pdict[k]) for k in sorted(pdict)]
+        if form == "ordered-list" and order:
+            return [pdict[k] for k in order]
+        if form == "ordered-ndarray" and order:
+            return np.array([pdict[k] for k in order])
+        return dict(pdict)
+
+    found = {"overwritten": False, "modified": False}
+
+    def check_kept_and_handed(after):
+        """results returned earlier and the mutable objects handed in must still be what they were"""
+        if not found["overwritten"]:
+            for sol, snap, sig_, hcls_, n in kept:
+                a = np.asarray(sol, dtype=float)
+                if a.shape != snap.shape or not np.array_equal(a, snap):
+                    found["overwritten"] = True
+                    viol.append({"what": "the array returned by solve #%d (%s) was changed by a later call (%s): it no longer holds the "
+                                         "solution it was returned with" % (n, sig_, after),
+                                 "signature": "session:%s:earlier-result-overwritten" % sig_,
+                                 "detail": "then=%s now=%s" % (snap.tolist(), a.tolist())})
+                    break
+        if not found["modified"]:
+            for obj, snap, what in handed:
+                if not _same_as_snapshot(obj, snap):
+                    found["modified"] = True
+                    viol.append({"what": "the %s object handed to pygom was modified (seen after %s)" % (what, after),
+                                 "signature": "session:input-modified:%s" % what,
+                                 "detail": "before=%s now=%r" % (snap[2] if snap[0] != "nd" else snap[2].tolist(), obj)})
+                    break
+
+    for op in case["ops"]:
+        i = op["inst"]
+        if op["op"] == "build":
+            if i not in live and not build(i):
+                return done()
+            continue
+        if op["op"] == "deepcopy":
+            if i not in live and not build(i):
+                return done()
+            j = op["as"]
+            live[j] = {"model": _copy.deepcopy(live[i]["model"]), "cur": dict(live[i]["cur"]), "last": live[i]["last"]}
+            tags.append("session:deepcopy")
+            continue
+        if i not in live and not build(i):
+            return done()
+        L = live[i]
+        model, cur = L["model"], L["cur"]
+        if op["op"] == "randomise":
+            import scipy.stats
+            pd0 = cur["params"][0] if cur["params"] else {}
+            dists = {k: scipy.stats.gamma(a=100.0, scale=v / 100.0) for k, v in pd0.items() if v > 0}
+            if dists:
+                np.random.seed(20250928)        # pygom draws with rvs() from numpy's global generator
+                try:
+                    model.parameters = dists
+                    if op.get("solve"):
+                        model.solve_determ([tval(f) for f in case["grids"][op["grid"]]], iteration=2)
+                    tags.append("session:random-parameters-assigned")
+                    counts["visible"] += 1
+                except Exception as exc:         # random parameters are not this property's business
+                    tags.append("session:random-parameters:raised:%s" % type(exc).__name__)
+                cur["params"] = None             # whatever the draws left behind: every parameter is re-assigned next
+                L["after_random"] = True
+            continue
+        R = refs[(root(i), op["cfg"])]
+        c = cfg_of(i, op["cfg"])
+        pd = {k: float(Fraction(v)) for k, v in c["params"].items()}
+        x0v, t0v = R["x0"], R["t0"]
+        grid = [tval(f) for f in case["grids"][op["grid"]]]
+        e = (op["entry"], op["method"], op["fo"], op["io"])
+        sig = entry_sig(e)
+        scalar = op["gform"] in ("scalar", "intscalar", "np.float64", "np.int64")
+        # what differs from this instance's previous solve (the class of history named in the signature)
+        now = {"t0": t0v, "x0": tuple(x0v), "params": tuple(sorted(pd.items())), "grid": tuple(grid), "gname": op["grid"],
+               "forms": (op["gform"], op["xform"], op["tform"], op["pform"]), "method": op["method"], "full_output": op["fo"],
+               "includeOrigin": op["io"], "entry": op["entry"]}
+        if L["last"] is None:
+            hist = ["first"]
+        else:
+            hist = [k for k in ("t0", "x0", "params", "grid", "forms", "method", "full_output", "includeOrigin", "entry")
+                    if now[k] != L["last"][k]] or ["same"]
+            if "grid" in hist:
+                rel = {"G1": "values", "G2": "superset", "G3": "subset", "G4": "interior", "Gs": "scalar", "Gz": "starts-at-t0"}
+                other = now["gname"] if now["gname"] != "G0" else L["last"]["gname"]
+                hist[hist.index("grid")] = "grid-" + rel.get(other, "other")
+        if L.get("after_random"):       # from then on part of this instance's history
+            hist = ["after-random-parameters"]
+        if prev_inst[0] is not None and prev_inst[0] != i:
+            hist.append("other-instance-between")
+        hcls = "+".join(hist)
+        tags.append("session:history=%s" % hcls)
+        tags.append("session:entry=%s" % sig)
+        for k in ("gform", "xform", "tform", "pform"):
+            tags.append("session:%s=%s" % (k, op[k]))
+        # --- assign only what differs from what this instance was last given -------------------------------------------
+        try:
+            # (a value spelled differently counts as different: the spelling is what the forms probes vary)
+            if cur["params"] != (pd, op["pform"]):
+                changed = None if cur["params"] is None else [k for k in pd if cur["params"][0].get(k) != pd[k]]
+                if pd:
+                    model.parameters = hand(params_arg(i, pd, op["pform"], changed), "parameters")
+                cur["params"] = (pd, op["pform"])
+            if op["entry"] != "integrateFuncJac":
+                dx, dt = cur["x0"] != (tuple(x0v), op["xform"]), cur["t0"] != (t0v, op["tform"])
+                if dx or dt:
+                    xa = lambda: hand(_container(list(x0v), op["xform"]), "x0")
+                    ta = lambda: hand(_scalar(t0v, op["tform"]), "t0")
+                    if op["via"] == "values" or cur["x0"] is None:
+                        model.initial_values = (xa(), ta())
+                    else:
+                        if dx:
+                            model.initial_state = xa()
+                        if dt:
+                            model.initial_time = ta()
+                    cur["x0"], cur["t0"] = (tuple(x0v), op["xform"]), (t0v, op["tform"])
+            targ = hand(_scalar(grid[0], op["gform"]) if scalar else _container(grid, op["gform"]), "grid")
+            if op["entry"] == "integrate":
+                res = model.integrate(targ, full_output=op["fo"])
+                sol = res[0] if op["fo"] else res
+            elif op["entry"] == "solve_determ":
+                sol = model.solve_determ(targ, full_output=op["fo"])
+            elif op["entry"] == "integrate2":
+                res = model.integrate2(targ, full_output=op["fo"], method=op["method"])
+                sol = res[0] if op["fo"] else res
+            else:
+                xa = hand(_container(list(x0v), op["xform"]), "x0")
+                ta = hand(_scalar(t0v, op["tform"]), "t0")
+                res = ode_utils.integrateFuncJac(model.ode_T, model.jacobian_T, xa, ta, targ, includeOrigin=op["io"],
+                                                 full_output=op["fo"], method=op["method"])
+                sol = res[0] if op["fo"] else res
+        except Exception as exc:
+            if op["grid"] == "Gz" and type(exc).__name__ in ZERO_STEP_ERRORS and op["entry"] in ("integrate2", "integrateFuncJac"):
+                tags.append("session:zero-length-first-step:%s:not-judged" % type(exc).__name__)
+                counts["tagged"] += 1
+                L["last"], prev_inst[0] = now, i
+                continue
+            viol.append({"what": "%s raised %s: %s (history: %s)" % (sig, type(exc).__name__, str(exc)[:200], hcls),
+                         "signature": "session:%s:history=%s:raised:%s" % (sig, hcls, type(exc).__name__), "detail": json.dumps(op)})
+            L["last"], prev_inst[0] = now, i
+            continue
+        L["last"], prev_inst[0] = now, i
+        counts["solves"] += 1
+        origin = op["io"] if op["entry"] == "integrateFuncJac" else True
+        ref = np.array([R["rows"][t] for t in grid])
+        snap = np.array(sol, dtype=float, copy=True)
+        nv = len(viol)
+        judge("session:%s:history=%s" % (sig, hcls), snap, ref, x0v, grid, origin, viol, margins, sig.split(":")[0],
+              R["acc_odeint"] if "method=odeint" in sig else TOL)
+        for v in viol[nv:]:
+            v["detail"] = "op=%s ; %s" % (json.dumps(op), v["detail"])
+        kept.append((sol, snap, sig, hcls, len(kept)))
+        key = (i, now["t0"], now["x0"], now["params"], now["grid"], e)
+        if key not in first_result:
+            first_result[key] = snap
+        elif len(viol) == nv and not (first_result[key].shape == snap.shape and np.array_equal(first_result[key], snap)):
+            d = float(np.max(np.abs(first_result[key] - snap))) if first_result[key].shape == snap.shape else float("nan")
+            mism.append({"what": "session:not-reproducible:%s" % sig.split(":")[0],
+                         "detail": "%s with equal values returned different bits after history %s (max difference %.3g): the model has the "
+                                   "result depend on the call's own arguments only" % (sig, hcls, d)})
+        check_kept_and_handed("op %s, %s" % (sig, hcls))
+    # a change is VISIBLE when the reference for the changed inputs differs from the one for the old inputs
+    base = refs.get((0, "A"))
+    for (i, name), R in refs.items():
+        if base is not None and (i, name) != (0, "A"):
+            common = sorted(set(base["rows"]) & set(R["rows"]))
+            if common and sorted(spec_info[0]["states"]) == sorted(spec_info[i]["states"]):
+                ix = [spec_info[i]["states"].index(s_) for s_ in spec_info[0]["states"]]
+                d = max(float(np.max(np.abs(base["rows"][t] - R["rows"][t][ix]) / (1.0 + np.abs(base["rows"][t])))) for t in common)
+                if d > 1e-3:
+                    counts["visible"] += 1
+                    tags.append("session:visible-difference:%s" % (name if i == 0 else "instance"))
+    for k, v in margins.items():
+        tags.append("session-margin:%s:%s" % (k, bucket(v * TOL)))
+    moved = min(R["moved"] for R in refs.values())
+    need_visible = case["flavour"] in ("history", "siblings")
+    nt = moved > 1e-3 and counts["solves"] > 0 and not viol and not mism and (counts["visible"] > 0 or not need_visible)
+    return done(nt, sample={"flavour": case["flavour"], "solves": counts["solves"], "visible_changes": counts["visible"],
+                            "margins": margins, "T": float(T), "instances": len(descr)})
+
+
 def run_case(case):
     if case["kind"] == "fake":
         return run_fake(case)
+    if case["kind"] == "session":
+        return run_session(case)
+    if case["kind"] == "fakesession":
+        return run_fake_session(case)
     return run_runtime(case)
